@@ -363,7 +363,7 @@ func runCase(rt *rapid.T) {
 			}
 			clash := false
 			aliasAmbiguous := false // which entry's data ends up under (slot, committee 0) depends on map order
-			possible := false // outcome depends on the order in which the set's entries are applied
+			possible := false       // outcome depends on the order in which the set's entries are applied
 			type attEntry struct {
 				comm          uint64
 				val, src, tgt string
